@@ -88,13 +88,14 @@ def astar[S](
         iterations += 1
         closed.add(current)
 
+        # Budget first (see dijkstra): a goal reached only beyond max_cost is not an answer
+        if max_cost is not None and g[current] > max_cost:
+            continue
+
         if is_goal(current):
             path = reconstruct_path(parent, current)
             status = Status.OPTIMAL if weight == 1.0 else Status.FEASIBLE
             return Result(path, g[current], iterations, evaluations, status)
-
-        if max_cost is not None and g[current] > max_cost:
-            continue
 
         for neighbor, edge_cost in neighbors(current):
             if neighbor in closed:
